@@ -544,7 +544,10 @@ def assemble(unit: dict, scratch: str, passname="A") -> Assembled:
                 continue
             raise Undecided(f"lost anchor: contract for {k} but no such function extracted")
     parts = [PRELUDE_HEAD, "verus! {\n"]
-    for m in unit.get("model", ["core"]):
+    models = list(unit.get("model", ["core"]))
+    if "stdauto" not in models and not unit.get("no_stdauto"):
+        models.insert(1 if models and models[0] == "core" else 0, "stdauto")
+    for m in models:
         parts.append(f"// ==== model fragment {m} ====\n" + open(os.path.join(VERIF, "model", m + ".rs")).read())
     # consts
     want_types = unit.get("types", ["*"])
